@@ -1,4 +1,5 @@
 CONSTANT Want = {"c05"}
+CONSTANT Conform = FALSE
 INIT TraceInit
 NEXT TraceNext
 INVARIANTS C05_URIs
